@@ -530,6 +530,38 @@ def total(ctx):
                     if a in reads:
                         ctx.bad(reads[a], "class %s stored `self.%s` on the pinned tree and `.%s` is still read (%s), but no method of the class (or of its ancestors/descendants in the repository) stores it any more: AttributeError"
                                 % (cq, a, a, where_(reads[a])), key="%s::%s::attribute %s is read but never stored" % (rel, cq, a))
+    # (f) swapped arguments: a positional argument that is a variable named exactly like ANOTHER parameter of the
+    # (resolved, in-repository) callee than the one it lands on - e.g. after a signature was re-ordered and a
+    # positional call site was not.  Only name-for-name evidence counts: the variable's name must be a parameter name of
+    # the callee, at a different position, and the parameter it lands on must have a different name.
+    n_calls = 0
+    for rel in files:
+        if rel not in ctx.repo.modules:
+            continue
+        mod = ctx.repo.modules[rel]
+        for q, fn in mod.funcs.items():
+            for c in [x for x in walk_local(fn) if isinstance(x, ast.Call)]:
+                if not c.args or any(isinstance(a, ast.Starred) for a in c.args):
+                    continue
+                try:
+                    tg = ctx.res.resolve_call(c)
+                except Exception:
+                    tg = []
+                if len(tg) != 1:
+                    continue
+                callee = tg[0]
+                ps = [a.arg for a in callee.args.posonlyargs + callee.args.args]
+                off = 1 if ps and ps[0] in ("self", "cls") and isinstance(c.func, ast.Attribute) or (ps and ps[0] == "self" and isinstance(c.func, ast.Name)) else 0
+                n_calls += 1
+                for i, a in enumerate(c.args):
+                    nm = a.id if isinstance(a, ast.Name) else None
+                    if nm is None or i + off >= len(ps):
+                        continue
+                    here = ps[i + off]
+                    if nm != here and nm in ps[off:] and ps.index(nm) != i + off:
+                        # the name it lands on must not itself be passed correctly elsewhere as keyword (then it would be a TypeError anyway)
+                        ctx.bad(a, "`%s` is passed positionally to %s() where it lands on parameter `%s`, while the callee has a parameter named `%s` at another position: arguments are swapped "
+                                   "(the signature and this call site disagree)" % (nm, callee.name, here, nm), key="%s::%s::swapped argument %s -> %s" % (rel, q, nm, callee.name))
     ctx.ok(None, "%d functions of %d files: no undefined name, no local read without a reaching binding, no value-returning function that can fall off its end; %d classes keep storing every attribute they stored on the pinned tree (%d attribute reads)"
            % (n_fn, len(files), n_cls, n_use), key="%s::<files of %s>::executable on every path" % ("joblib", pid))
     ctx.floor(n_fn, 1, "functions analysed by %s.TOTAL" % pid)
